@@ -1,3 +1,4 @@
+import subprocess
 from typing import Optional
 from conductor.utils.output_handler import OutputHandler
 
@@ -12,6 +13,11 @@ class OperationExecutionHandle:
         pid: Optional[int],
     ):
         self.pid: Optional[int] = pid
+        # The `Popen` object must stay referenced while the operation is in
+        # flight. If it is dropped, `Popen.__del__()` (or the next `Popen()`)
+        # polls the child and can reap it before our SIGCHLD handler does, in
+        # which case the child's exit is never reported.
+        self.process: Optional[subprocess.Popen] = None
         self.stdout: Optional[OutputHandler] = None
         self.stderr: Optional[OutputHandler] = None
         self.returncode: Optional[int] = None
